@@ -6,9 +6,12 @@
 //! its await, and one extra front-end operation placed before the fault / while the task is held /
 //! after the release / after everything.  Server messages: correct answers, noise, mutated answers,
 //! extreme ids (0, 2^63, 2^64-1, 2^64, negative, fractional), huge arrays, deep nesting, texts that
-//! are no JSON-RPC, responses matching nothing pending, invalid UTF-8.
+//! are no JSON-RPC, responses matching nothing pending, invalid UTF-8, reply arrays whose ids lie far
+//! apart.  Subscriptions are accepted and then dropped / unsubscribed / closed by a lag, so the faulted
+//! transport write can also be the unsubscribe request.
 //!
-//! Oracle (independent of the Lean model): no panic anywhere (panic hook + JoinHandles); never the
+//! Oracle (independent of the Lean model): no panic anywhere (panic hook + JoinHandles); no single
+//! allocation above 16 MiB while a line is handled (allocator watch); never the
 //! placeholder error; `is_connected() == false` ⇔ `on_disconnect()` is ready, and then it is
 //! `RestartNeeded(cause)`; every `RestartNeeded` seen in one history carries the same cause, and the
 //! cause is one the history injected; once disconnected every new operation fails at once with that
@@ -20,6 +23,35 @@ use jrpc_harness::client_mock::{MockErr, split_cases};
 use jrpc_harness::common::*;
 use jsonrpsee_core::client::ReceivedMessage;
 use std::time::{Duration, Instant};
+
+// ---------------------------------------------------------------------------------------------
+// allocation watch: the largest single allocation requested while one op line is executed.  Nothing
+// the peer sends may make the client reserve memory in proportion to a *number* it wrote (an id, an
+// id span) rather than to the bytes it sent.
+
+struct Watch;
+static MAX_ALLOC: std::sync::atomic::AtomicUsize = std::sync::atomic::AtomicUsize::new(0);
+unsafe impl std::alloc::GlobalAlloc for Watch {
+	unsafe fn alloc(&self, l: std::alloc::Layout) -> *mut u8 {
+		MAX_ALLOC.fetch_max(l.size(), std::sync::atomic::Ordering::Relaxed);
+		unsafe { std::alloc::System.alloc(l) }
+	}
+	unsafe fn dealloc(&self, p: *mut u8, l: std::alloc::Layout) {
+		unsafe { std::alloc::System.dealloc(p, l) }
+	}
+	unsafe fn alloc_zeroed(&self, l: std::alloc::Layout) -> *mut u8 {
+		MAX_ALLOC.fetch_max(l.size(), std::sync::atomic::Ordering::Relaxed);
+		unsafe { std::alloc::System.alloc_zeroed(l) }
+	}
+	unsafe fn realloc(&self, p: *mut u8, l: std::alloc::Layout, n: usize) -> *mut u8 {
+		MAX_ALLOC.fetch_max(n, std::sync::atomic::Ordering::Relaxed);
+		unsafe { std::alloc::System.realloc(p, l, n) }
+	}
+}
+#[global_allocator]
+static WATCH: Watch = Watch;
+/// no op line of these histories carries more than ~100 kB; 16 MiB is far above any honest need
+const ALLOC_LIMIT: usize = 16 << 20;
 
 // ---------------------------------------------------------------------------------------------
 // oracle
@@ -62,7 +94,7 @@ impl Orc {
 		}
 	}
 
-	fn check(&mut self, line: &str, obs: &FObs, send_failed: bool) -> Result<(), String> {
+	fn check(&mut self, line: &str, obs: &FObs, send_failed: bool, max_alloc: usize) -> Result<(), String> {
 		let w: Vec<&str> = line.split(' ').collect();
 		if w[0] != "ct" {
 			return Ok(());
@@ -97,6 +129,11 @@ impl Orc {
 		}
 		if !obs.panics.is_empty() {
 			return Err(format!("a task panicked: {}", obs.panics.join(" ; ")));
+		}
+		if max_alloc > ALLOC_LIMIT {
+			return Err(format!(
+				"a single allocation of {max_alloc} bytes was requested while handling this line (limit {ALLOC_LIMIT}): memory reserved in proportion to a number the peer wrote"
+			));
 		}
 		// never the placeholder
 		for (k, c) in &obs.comps {
@@ -187,12 +224,12 @@ fn run_one(out: &mut Out, lines: &[String]) {
 	let mut ctl_send_failed = false;
 	let mut script = lines.to_vec();
 	script[0] = hdr;
-	let late = run_ct_case_with(&script, fcap, skip_all, |line, obs, send_failed| {
+	let late = run_ct_case_with(&script, fcap, skip_all, |line, obs, send_failed, max_alloc| {
 		ctl_send_failed = send_failed;
 		let verdict = if obs.literal.as_deref() == Some("case") || obs.literal.as_deref() == Some("bad-op") {
 			Ok(())
 		} else {
-			orc.check(line, obs, send_failed)
+			orc.check(line, obs, send_failed, max_alloc)
 		};
 		let nontrivial = !obs.conn || obs.comps.iter().any(|(_, c)| c.starts_with("E:"));
 		for (_, c) in &obs.comps {
@@ -233,11 +270,11 @@ fn run_one(out: &mut Out, lines: &[String]) {
 }
 
 /// like `client_faults::run_ct_case`, with the front-channel capacity as a parameter
-fn run_ct_case_with(lines: &[String], fcap: usize, skip_all: bool, mut on_line: impl FnMut(&str, &FObs, bool)) -> Vec<String> {
+fn run_ct_case_with(lines: &[String], fcap: usize, skip_all: bool, mut on_line: impl FnMut(&str, &FObs, bool, usize)) -> Vec<String> {
 	install_panic_hook();
 	let Some((str_ids, cap)) = parse_ct_header(&lines[0]) else {
 		for l in lines {
-			on_line(l, &FObs { literal: Some("bad-op".into()), ..Default::default() }, false);
+			on_line(l, &FObs { literal: Some("bad-op".into()), ..Default::default() }, false, 0);
 		}
 		return vec![];
 	};
@@ -245,11 +282,13 @@ fn run_ct_case_with(lines: &[String], fcap: usize, skip_all: bool, mut on_line: 
 	rt.block_on(async {
 		let mut s = FaultSession::new(str_ids, cap, fcap, Duration::from_secs(3600));
 		s.unmodelled = skip_all;
-		on_line(&lines[0], &FObs { literal: Some("case".into()), ..Default::default() }, false);
+		on_line(&lines[0], &FObs { literal: Some("case".into()), ..Default::default() }, false, 0);
 		for l in &lines[1..] {
+			MAX_ALLOC.store(0, std::sync::atomic::Ordering::Relaxed);
 			let obs = s.exec(l).await;
+			let max_alloc = MAX_ALLOC.load(std::sync::atomic::Ordering::Relaxed);
 			let sf = s.ctl.lock().unwrap().send_failed;
-			on_line(l, &obs, sf);
+			on_line(l, &obs, sf, max_alloc);
 		}
 		drop(s);
 		jrpc_harness::client_mock::barrier().await;
@@ -277,6 +316,13 @@ enum Item {
 	Noise,
 	/// a mutated correct answer (may or may not be fatal)
 	Mutated,
+	/// the application drops / unsubscribes an accepted subscription (the send task then writes the
+	/// unsubscribe request); `ct call` if no subscription has been accepted
+	DropSub,
+	UnsubSub,
+	/// more notifications than the stream buffers: the subscription lags and the client closes it
+	/// (the send task writes the unsubscribe request)
+	Flood,
 	Gate(&'static str, bool),
 	FaultSend,
 	FaultRecv,
@@ -284,13 +330,12 @@ enum Item {
 	Garbage,
 	Probe,
 	End,
-	Raw(String),
 }
 
 #[derive(Clone)]
 enum Open {
 	Call { id: u64 },
-	Sub { id: u64 },
+	Sub { id: u64, ticket: usize },
 	Batch { start: u64, n: u64 },
 }
 
@@ -305,7 +350,7 @@ fn answer_text(rng: &mut Rng, o: &Open, str_ids: bool, subs: &mut Vec<String>) -
 			1 => format!("{{\"result\":[{id},null],\"id\":{}}}", idj(*id, str_ids)),
 			_ => format!("{{\"jsonrpc\":\"2.0\",\"id\":{},\"result\":\"r{id}\"}}", idj(*id, str_ids)),
 		},
-		Open::Sub { id } => {
+		Open::Sub { id, .. } => {
 			if rng.chance(1, 6) {
 				format!("{{\"jsonrpc\":\"2.0\",\"id\":{},\"error\":{{\"code\":-32001,\"message\":\"refused\"}}}}", idj(*id, str_ids))
 			} else {
@@ -341,7 +386,7 @@ fn noise_text(rng: &mut Rng, subs: &[String]) -> String {
 
 /// texts after which the client must abandon the connection; `never` is an id no operation will ever get
 fn garbage_text(rng: &mut Rng, out: &mut Out, str_ids: bool, never: u64) -> String {
-	let k = rng.below(22);
+	let k = rng.below(34);
 	out.count(&format!("garbage.kind{k:02}"));
 	match k {
 		0 => "hello".into(),
@@ -373,7 +418,42 @@ fn garbage_text(rng: &mut Rng, out: &mut Out, str_ids: bool, never: u64) -> Stri
 		// deep nesting (below serde_json's recursion limit) inside something that is no JSON-RPC message
 		19 => format!("{{\"x\":{}{}}}", "[".repeat(100), "]".repeat(100)),
 		20 => "{\"jsonrpc\":\"2.0\",\"id\":0,\"result\":1,\"error\":{\"code\":1,\"message\":\"both\"}}".into(),
-		_ => "\u{feff}{\"jsonrpc\":\"2.0\",\"id\":0,\"result\":1}".into(),
+		21 => "\u{feff}{\"jsonrpc\":\"2.0\",\"id\":0,\"result\":1}".into(),
+		// reply arrays whose ids lie far apart: the id *span* is peer-controlled and matches no pending
+		// batch (batches have at most 64 entries); nothing may be sized by it
+		_ => {
+			let spans: [&[&str]; 12] = [
+				&["0", "18446744073709551614"],
+				&["18446744073709551614", "0"],
+				&["0", "9223372036854775808"],
+				&["1", "18446744073709551615"],
+				&["9223372036854775808", "18446744073709551615"],
+				&["9223372036854775807", "18446744073709551614"],
+				&["0", "10000000"],
+				&["10000000", "3", "7"],
+				&["0", "9223372036854775807", "18446744073709551614"],
+				&["7", "100000"],
+				&["0", "65"],
+				&["2", "1000000"],
+			];
+			let ids = spans[(k - 22) as usize];
+			// (spans around 2^32..2^56 are left out on purpose: a client that sized a buffer by them would not
+			// panic but make the allocator abort the whole process)
+			let quote = rng.chance(1, 3);
+			let es: Vec<String> = ids
+				.iter()
+				.enumerate()
+				.map(|(n, i)| {
+					let id = if quote { format!("\"{i}\"") } else { i.to_string() };
+					if n % 2 == 0 {
+						format!("{{\"jsonrpc\":\"2.0\",\"id\":{id},\"result\":{n}}}")
+					} else {
+						format!("{{\"jsonrpc\":\"2.0\",\"id\":{id},\"error\":{{\"code\":-1,\"message\":\"e\"}}}}")
+					}
+				})
+				.collect();
+			format!("[{}]", es.join(","))
+		}
 	}
 }
 
@@ -429,6 +509,9 @@ fn render(rng: &mut Rng, out: &mut Out, caseno: u64, str_ids: bool, cap: u64, sc
 	let mut next_id = 0u64;
 	let mut open: Vec<Open> = vec![];
 	let mut subs: Vec<String> = vec![];
+	// (ticket, subscription id) of the subscriptions the script believes accepted and not yet let go
+	let mut streams: Vec<(usize, String)> = vec![];
+	let mut ticket = 0usize;
 	let mut fault_no = 0u64;
 	for it in script {
 		match it {
@@ -436,20 +519,24 @@ fn render(rng: &mut Rng, out: &mut Out, caseno: u64, str_ids: bool, cap: u64, sc
 				lines.push("ct call".into());
 				open.push(Open::Call { id: next_id });
 				next_id += 1;
+				ticket += 1;
 			}
 			Item::Front(Front::Subscribe) => {
 				lines.push("ct subscribe".into());
-				open.push(Open::Sub { id: next_id });
+				open.push(Open::Sub { id: next_id, ticket });
 				next_id += 2;
+				ticket += 1;
 			}
 			Item::Front(Front::Batch(n)) => {
 				lines.push(format!("ct batch {n}"));
 				open.push(Open::Batch { start: next_id, n: *n });
 				next_id += 1;
+				ticket += 1;
 			}
 			Item::Front(Front::Notify) => {
 				lines.push("ct notify".into());
 				next_id += 1;
+				ticket += 1;
 			}
 			Item::Answer(oldest) => {
 				if open.is_empty() {
@@ -457,7 +544,41 @@ fn render(rng: &mut Rng, out: &mut Out, caseno: u64, str_ids: bool, cap: u64, sc
 				} else {
 					let i = if *oldest { 0 } else { rng.below(open.len() as u64) as usize };
 					let o = open.remove(i);
+					let before = subs.len();
 					lines.push(format!("ct deliver {}", hexs(&answer_text(rng, &o, str_ids, &mut subs))));
+					if let Open::Sub { ticket: t, .. } = o {
+						if subs.len() > before {
+							streams.push((t, subs[before].clone()));
+						}
+					}
+				}
+			}
+			Item::DropSub | Item::UnsubSub => {
+				if streams.is_empty() {
+					lines.push("ct call".into());
+					open.push(Open::Call { id: next_id });
+					next_id += 1;
+					ticket += 1;
+				} else {
+					let i = rng.below(streams.len() as u64) as usize;
+					let (t, _) = streams.remove(i);
+					let verb = if matches!(it, Item::DropSub) { "drop" } else { "unsub" };
+					out.count(&format!("consumer.{verb}"));
+					lines.push(format!("ct {verb} {t}"));
+				}
+			}
+			Item::Flood => {
+				if streams.is_empty() {
+					lines.push(format!("ct deliver {}", hexs(&noise_text(rng, &subs))));
+				} else {
+					out.count("consumer.lag_flood");
+					let (_, sid) = rng.pick(&streams).clone();
+					for n in 0..=cap {
+						lines.push(format!(
+							"ct deliver {}",
+							hexs(&format!("{{\"jsonrpc\":\"2.0\",\"method\":\"sub\",\"params\":{{\"subscription\":\"{sid}\",\"result\":{n}}}}}"))
+						));
+					}
 				}
 			}
 			Item::Noise => lines.push(format!("ct deliver {}", hexs(&noise_text(rng, &subs)))),
@@ -488,13 +609,37 @@ fn render(rng: &mut Rng, out: &mut Out, caseno: u64, str_ids: bool, cap: u64, sc
 			}
 			Item::Probe => lines.push("ct probe".into()),
 			Item::End => lines.push("ct end".into()),
-			Item::Raw(l) => lines.push(l.clone()),
 		}
 	}
 	lines
 }
 
+/// does the send task write something to the transport for this item (if the script's belief holds)?
+fn writes(it: &Item) -> bool {
+	matches!(it, Item::Front(_) | Item::DropSub | Item::UnsubSub | Item::Flood)
+}
+
 fn gen_base(rng: &mut Rng) -> Vec<Item> {
+	// half of the bases carry the life cycle of a subscription: accepted, a call outstanding, then
+	// the application (or a lag) lets go of it — the send task's only write is the unsubscribe request
+	if rng.chance(1, 2) {
+		let mut v = vec![Item::Front(Front::Subscribe), Item::Answer(true)];
+		if rng.chance(2, 3) {
+			v.push(Item::Front(Front::Call));
+		}
+		if rng.chance(1, 3) {
+			v.push(Item::Noise);
+		}
+		v.push(match rng.below(3) {
+			0 => Item::DropSub,
+			1 => Item::UnsubSub,
+			_ => Item::Flood,
+		});
+		if rng.chance(1, 3) {
+			v.push(Item::Answer(true));
+		}
+		return v;
+	}
 	let n = rng.below(6);
 	let mut v = vec![];
 	for _ in 0..n {
@@ -550,8 +695,9 @@ fn systematic(rng: &mut Rng, out: &mut Out, base: &[Item], p: usize, fault: &str
 	out.count(&format!("fault.{fault}"));
 	out.count(&format!("held.{}", gate.unwrap_or("none")));
 	out.count(&format!("fault_at_step.{p}"));
-	if fault == "send_err" {
-		// the switch fires on the next transport send: make sure there is one
+	if fault == "send_err" && !base[p..].iter().any(writes) {
+		// the switch fires on the next transport send (a call, a subscribe, a batch, a notification or an
+		// unsubscribe request): make sure there is one
 		s.push(Item::Front(Front::Call));
 	}
 	s.extend_from_slice(&base[p..]);
@@ -585,7 +731,12 @@ fn random_history(rng: &mut Rng, out: &mut Out) -> Vec<Item> {
 			7 => Item::Front(Front::Notify),
 			8..=10 => Item::Answer(rng.chance(1, 2)),
 			11 => Item::Noise,
-			12 | 13 => Item::Mutated,
+			12 => Item::Mutated,
+			13 => match rng.below(3) {
+				0 => Item::DropSub,
+				1 => Item::UnsubSub,
+				_ => Item::Flood,
+			},
 			14 => {
 				let g = *rng.pick(&["send", "close", "recv"]);
 				if shut.contains(&g) {
@@ -671,6 +822,45 @@ fn simultaneous_history(rng: &mut Rng, out: &mut Out) -> Vec<Item> {
 	s.push(Item::End);
 	s.push(extra_front(rng));
 	s
+}
+
+/// the fault on exactly the write of an unsubscribe request: an accepted subscription, optionally a
+/// call outstanding, the switch armed, then the application drops / unsubscribes the stream or the
+/// stream lags — the unsubscribe request is the next (and only) thing the send task writes
+fn unsub_write_histories() -> Vec<Vec<Item>> {
+	let mut all = vec![];
+	for trigger in 0..3 {
+		for gate in [None, Some("send"), Some("close"), Some("recv")] {
+			for outstanding in [true, false] {
+				for late_call in [false, true] {
+					let mut s = vec![Item::Front(Front::Subscribe), Item::Answer(true)];
+					if outstanding {
+						s.push(Item::Front(Front::Call));
+						s.push(Item::Front(Front::Batch(2)));
+					}
+					if let Some(g) = gate {
+						s.push(Item::Gate(g, false));
+					}
+					s.push(Item::FaultSend);
+					s.push(match trigger {
+						0 => Item::DropSub,
+						1 => Item::UnsubSub,
+						_ => Item::Flood,
+					});
+					if late_call {
+						s.push(Item::Front(Front::Call));
+					}
+					if let Some(g) = gate {
+						s.push(Item::Gate(g, true));
+					}
+					s.push(Item::End);
+					s.push(Item::Front(Front::Call));
+					all.push(s);
+				}
+			}
+		}
+	}
+	all
 }
 
 /// histories outside the text model (invalid UTF-8, nesting beyond serde_json's recursion limit) or
@@ -880,6 +1070,14 @@ fn main() {
 					}
 				}
 			}
+		}
+		for script in unsub_write_histories() {
+			caseno += 1;
+			out.count("unsubscribe_write_fault");
+			out.count("fault.send_err");
+			let str_ids = rng.chance(1, 4);
+			let cap = rng.range(1, 3);
+			lines.extend(render(&mut rng, &mut out, caseno, str_ids, cap, &script));
 		}
 		for i in 0..(n - systematic_budget) {
 			caseno += 1;
